@@ -403,6 +403,9 @@ def go_build(ctx, pk, race=False, tags="verif"):
         raise NoVerdict("go build of %s with harness failed:\n%s" % (pk, p.stdout[-4000:]))
     os.replace(tmp, final)
     ctx.log("built %s in %.1fs" % (os.path.basename(final), time.time() - t0))
+    if not hasattr(ctx, "recipes"):
+        ctx.recipes, ctx.binaries = {}, {}
+    ctx.binaries[final] = {"harness": pk, "race": race, "tags": tags}
     return final
 
 
@@ -417,6 +420,9 @@ def go_run(ctx, binary, test, infile=None, outfile=None, env=None, timeout=600, 
         e["VERIF_OUT"] = outfile
     if env:
         e.update({k: str(v) for k, v in env.items()})
+    if outfile and hasattr(ctx, "binaries") and binary in ctx.binaries:
+        ctx.recipes[outfile] = dict(ctx.binaries[binary], test=test, infile=infile,
+                                    env={k: str(v) for k, v in (env or {}).items()})
     cmd = ["timeout", "-k", "5", str(timeout), binary, "-test.run", "^" + test + "$", "-test.count=1",
            "-test.timeout", "%ds" % (timeout + 30), "-test.v"]
     p = subprocess.run(cmd, cwd=cwd or os.path.join(REPO, "."), env=e, stdout=subprocess.PIPE,
@@ -491,6 +497,9 @@ def tlc_trace(ctx, spec, cfg, trace, timeout=900, extra_env=None, chunk=8000):
         for r in (v if isinstance(v, list) else []):
             r = dict(r)
             r["chunk"] = i
+            rec = getattr(ctx, "recipes", {}).get(trace)
+            if rec:
+                r["_recipe"] = dict(rec, spec=spec, cfg=cfg)
             viol.append(r)
         for c in res.tag("VERIF_COUNT"):
             for k, n in (c[0] or {}).items():
@@ -539,6 +548,9 @@ def finish(ctx, level, rule, distinct_nontrivial, exhaustive=False, explanation=
     own = [v for v in ctx.viol if v.get("prop") == ctx.prop]
     other = [v for v in ctx.viol if v.get("prop") != ctx.prop]
     hits, new = {}, []
+    for v in ctx.viol:
+        if v not in own:
+            v.pop("_recipe", None)
     for v in own:
         s = v.get("sig", "")
         k = next((k for k in known if k["prop"] == ctx.prop and sig_matches(k["sig"], s)), None)
@@ -559,7 +571,21 @@ def finish(ctx, level, rule, distinct_nontrivial, exhaustive=False, explanation=
         for i, (s, v) in enumerate(sorted(bysig.items())):
             h = hashlib.sha1((ctx.prop + s).encode()).hexdigest()[:10]
             rp = os.path.join(ctx.replay_dir, "%s-%s.json" % (ctx.prop, h))
+            rec = v.pop("_recipe", None)
             art = {"property": ctx.prop, "violation": v, "seed": ctx.seed, "tier": ctx.tier}
+            if rec:
+                # what `./check <id> --replay <this file>` needs: the driver, the trace specification and the one
+                # input item (behaviour / vector) the violating trace was recorded from
+                item = None
+                try:
+                    items = json.load(open(rec["infile"])) if rec.get("infile") else None
+                    if isinstance(items, list):
+                        byid = [x for x in items if isinstance(x, dict) and x.get("id") == v.get("trace")]
+                        item = byid[0] if byid else (items[v["trace"]] if isinstance(v.get("trace"), int) and v["trace"] < len(items) else None)
+                except Exception:
+                    item = None
+                art["recipe"] = {k: rec[k] for k in ("harness", "race", "tags", "test", "env", "spec", "cfg")}
+                art["input_item"] = item
             if replay_of:
                 try:
                     art["behaviour"] = replay_of(v)
